@@ -431,6 +431,11 @@ func TestC03(t *testing.T) {
 			c03Multi.EvalCase(s, c03Case{Set: manySet(n, 3, 100, []string{"dense", "ramp"}[i%2]), Rep2: i % 4})
 		}
 	}
+	for i, f := range []openSet{manySet(256, 256, 7, "dense"), manySet(525, 512, 0, "dense"), manySet(296, 256, 200, "ramp"), manySet(257, 255, 31, "dense")} {
+		if hx.Sharded(i+7) || hx.Thorough() { // exactly 256 / 512 / 255 openings at ONE index, interleaved with others
+			c03Multi.EvalCase(s, c03Case{Set: f, Rep2: i % 4})
+		}
+	}
 	if hx.Sharded(3) || hx.Thorough() {
 		dup := openSet{Label: "dup", Shape: "forced:adjacent_duplicates", Polys: []polySpec{{Kind: "dense", Seed: uint64(hx.Seed())}, {Kind: "ramp", Seed: 3}},
 			Open: []opening{{Poly: 0, Z: 5}, {Poly: 0, Z: 5}, {Poly: 1, Z: 5}, {Poly: 0, Z: 5, Share: 1}, {Poly: 0, Z: 5, Rep: 3, Lambda: 9}, {Poly: 1, Z: 6}, {Poly: 1, Z: 6}}}
